@@ -8,6 +8,7 @@
 #include <unistd.h>
 
 #include <algorithm>
+#include <array>
 #include <deque>
 #include <functional>
 #include <memory>
@@ -1661,6 +1662,163 @@ struct Explorer {
     }
   }
 
+  // ---- C20: transcript ------------------------------------------------------------------------------
+  static string StripAnsi(const string& in) {
+    // what ninja documents for non-colour terminals: CSI sequences ESC [ ... <letter> are removed
+    string o;
+    for (size_t i = 0; i < in.size(); ++i) {
+      if (in[i] != '\x1b') { o += in[i]; continue; }
+      if (i + 1 >= in.size()) break;
+      if (in[i + 1] != '[') continue;   // a bare ESC is dropped, the text after it stays
+      i += 2;
+      while (i < in.size() && !isalpha((unsigned char)in[i])) ++i;
+      // the final letter is consumed
+    }
+    return o;
+  }
+
+  void CheckTranscript(const Op& op, const RunResult& r, vector<Violation>* out) {
+    if (r.hang || r.crashed || r.horizon) return;
+    for (auto& e : r.events) if (e.kind == Event::kInterrupt) return;
+    const string& T = r.out;
+    auto bad = [&](const string& clause, const string& detail, const string& stmt = "") {
+      Violation x; x.prop = "C20"; x.clause = clause; x.detail = detail;
+      if (!stmt.empty()) x.facts.set("stmt", stmt);
+      bool regen = false;
+      int cycles = 0;
+      for (auto& c : r.cmds) cycles = max(cycles, c.cycle);
+      for (auto& c : r.cmds) if (c.cycle != cycles) regen = true;
+      x.facts.set("manifest_was_regenerated_in_this_invocation", regen);
+      out->push_back(x);
+    };
+    bool verbose = find(op.flags.begin(), op.flags.end(), "-v") != op.flags.end();
+    bool custom = op.cfg.env.count("NINJA_STATUS") || find(op.flags.begin(), op.flags.end(), "--status") != op.flags.end();
+    // 1+2: every finished command's block
+    for (size_t ci = 0; ci < r.cmds.size(); ++ci) {
+      const RunCmd& c = r.cmds[ci];
+      if (!c.finished) continue;
+      if (c.status == 130) return;
+      const Variant* v = VariantByHash(sc, c.manifest_hash);
+      string desc = c.spec.line;
+      string outs;
+      if (v) {
+        auto p = v->producer.find(c.spec.id());
+        if (p != v->producer.end()) {
+          if (!v->stmts[p->second].desc.empty() && !verbose) desc = v->stmts[p->second].desc;
+          for (auto& o : v->stmts[p->second].outs) outs += o + " ";
+        }
+      }
+      string vis = StripAnsi(c.output);
+      if (c.spec.msvc) {
+        // /showIncludes lines are filtered out by ninja
+        string f;
+        size_t pos = 0;
+        while (pos < vis.size()) {
+          size_t nl = vis.find('\n', pos);
+          if (nl == string::npos) nl = vis.size() - 1;
+          string line = vis.substr(pos, nl - pos + 1);
+          if (line.compare(0, 22, "Note: including file: ") != 0) f += line;
+          pos = nl + 1;
+        }
+        vis = f;
+      }
+      string status_line = custom ? string() : "] " + desc + "\n";
+      string failed_block = c.status != 0 ? "FAILED: [code=" + to_string(c.status) + "] " + outs + "\n" + c.spec.line + "\n" : string();
+      string header = status_line + failed_block;
+      // dumb terminals: an empty line is inserted when the previous output did not end in a newline
+      string header_nl = status_line + "\n" + failed_block;
+      bool any_console = false;
+      for (auto& cc : r.cmds) if (cc.console) any_console = true;
+      if (c.console) {
+        // status line printed when it started; its own output follows directly
+        string want = "] " + desc + "\n" + c.output, want_nl = "] " + desc + "\n\n" + c.output;
+        if (!custom && T.find(want) == string::npos && T.find(want_nl) == string::npos)
+          bad("console-output-not-directly-after-status", "console command '" + c.spec.id() + "': something was printed between its status line and its output", c.spec.id());
+        continue;
+      }
+      if (vis.empty()) {
+        // (status lines of silent commands may be coalesced while a console command owns the terminal)
+        if (!custom && !any_console && T.find(header) == string::npos && T.find(header_nl) == string::npos)
+          bad("status-line-missing", "no status line" + string(c.status ? "/FAILED block" : "") + " for '" + c.spec.id() + "'", c.spec.id());
+        continue;
+      }
+      size_t first = T.find(vis);
+      if (first == string::npos) {
+        bad("output-lost", "the output of '" + c.spec.id() + "' does not appear (whole and contiguous) in the transcript", c.spec.id());
+        continue;
+      }
+      if (T.find(vis, first + 1) != string::npos) {
+        bad("output-repeated", "the output of '" + c.spec.id() + "' appears more than once", c.spec.id());
+        continue;
+      }
+      // (in a dumb terminal ninja puts an empty line before a block when the previous output did not
+      // end in a newline; that does not separate the block from its status line in any harmful way)
+      auto ends_with_at = [&](size_t pos, const string& h) { return pos >= h.size() && T.compare(pos - h.size(), h.size(), h) == 0; };
+      if (!custom && !ends_with_at(first, header) && !ends_with_at(first, header + "\n") && !ends_with_at(first, header_nl))
+        bad("output-not-after-its-status-line", "the output of '" + c.spec.id() + "' is not directly preceded by its status line" +
+            (c.status ? " and FAILED block" : ""), c.spec.id());
+    }
+    // 3: counters
+    vector<array<long, 5>> cnt;   // s f t r u  (default format: f t only)
+    {
+      size_t pos = 0;
+      while (pos < T.size()) {
+        size_t nl = T.find('\n', pos);
+        if (nl == string::npos) nl = T.size();
+        string line = T.substr(pos, nl - pos);
+        pos = nl + 1;
+        long a, b, c2, d, e;
+        if (op.cfg.env.count("NINJA_STATUS")) {
+          for (size_t q = 0; q < line.size(); ++q) {
+            if (!isdigit((unsigned char)line[q]) || (q && isdigit((unsigned char)line[q - 1]))) continue;
+            int used = 0;
+            if (sscanf(line.c_str() + q, "%ld/%ld/%ld/%ld/%ld|%n", &a, &b, &c2, &d, &e, &used) == 5 && used > 0) {
+              cnt.push_back({a, b, c2, d, e});
+              break;
+            }
+          }
+        } else if (!custom) {
+          // a status line may be glued to the end of an output that lacks a trailing newline
+          for (size_t q = line.find('['); q != string::npos; q = line.find('[', q + 1)) {
+            int used = 0;
+            if (sscanf(line.c_str() + q, "[%ld/%ld] %n", &a, &b, &used) == 2 && used > 0) { cnt.push_back({-1, a, b, -1, -1}); break; }
+          }
+        }
+      }
+    }
+    long last_f = 0;
+    size_t finished_cmds = 0, started_cmds = r.cmds.size();
+    for (auto& c : r.cmds) if (c.finished) finished_cmds++;
+    for (auto& k : cnt) {
+      if (k[1] > k[2]) { bad("finished-exceeds-total", "status line shows " + to_string(k[1]) + " finished of " + to_string(k[2])); break; }
+      if (k[0] >= 0) {
+        if (k[0] > k[2]) { bad("started-exceeds-total", "status line shows " + to_string(k[0]) + " started of " + to_string(k[2])); break; }
+        if (k[1] > k[0]) { bad("finished-exceeds-started", "status line shows more finished than started"); break; }
+        if (k[3] < 0 || k[3] > k[0]) { bad("running-counter", "running counter out of range in a status line"); break; }
+        if (k[4] != k[2] - k[0]) { bad("remaining-counter", "remaining != total - started in a status line"); break; }
+      }
+      last_f = k[1];
+    }
+    (void)started_cmds;
+    if (r.exit_code == 0 && !cnt.empty() && finished_cmds > 0) {
+      auto& k = cnt.back();
+      // a console command's completion prints no status line: skip when one finished last
+      bool any_console_last = false;
+      for (size_t e = r.events.size(); e-- > 0;)
+        if (r.events[e].kind == Event::kFinish) {
+          const RunCmd& lc = r.cmds[r.events[e].cmd];
+          // ... and a restat command that left its outputs untouched prunes the plan only after its
+          // own status line was printed (the total it shows is the one before pruning)
+          any_console_last = lc.console || (lc.spec.restat && !lc.wrote);
+          break;
+        }
+      if (k[1] != k[2] && !any_console_last)
+        bad("final-count", "after a successful build the last status line reads " + to_string(k[1]) + "/" + to_string(k[2]) +
+            " (finished != total)");
+    }
+    (void)last_f;
+  }
+
   /// C06: limits and liveness on one execution.
   void CheckLimits(const Op& op, const RunResult& r, vector<Violation>* out) {
     if (r.hang) {
@@ -1879,6 +2037,7 @@ struct Explorer {
         if (Want("C05") && !op.cfg.faults.empty()) CheckRetry(op, r, w.disk, d, &vs);
         if (Want("C06")) CheckLimits(op, r, &vs);
         if (Want("C17")) CheckCycle(op, r, w.disk, d, &vs);
+        if (Want("C20")) CheckTranscript(op, r, &vs);
         if (twin_res && (Want("C10") || Want("C11"))) CheckTwin(op, r, w.disk, d, *twin_res, w.twin, twin_after, &vs);
         if (op.expect_error && Want("C11") && !r.hang && !r.crashed && r.exit_code == 0) {
           Violation x; x.prop = "C11"; x.clause = "invalid-dyndep-accepted";
@@ -2164,6 +2323,7 @@ struct Explorer {
           CheckLimits(op, r, &vs);
           CheckInterrupt(r, before, w.disk, &vs);
           CheckCycle(op, r, before, w.disk, &vs);
+          CheckTranscript(op, r, &vs);
           if (abnormal) {
             CheckUnexpectedError(op, r, &vs);
             size_t nv = vs.size();
